@@ -113,7 +113,7 @@ type Node struct {
 }
 
 // NewMemDB returns the production LevelDB wrapper over in-memory storage.
-func NewMemDB() dbm.DB { return dbm.VerifNewMemLevelDB() }
+func NewMemDB() dbm.DB { return &SoftDB{DB: dbm.VerifNewMemLevelDB()} }
 
 // InitGenesis writes the harness genesis through the exported store API exactly as
 // the chain's own first-start initialisation does for the built-in genesis.
@@ -171,6 +171,16 @@ func (n *Node) Restart() error {
 func (n *Node) Stop() {
 	if n.Disp != nil {
 		n.Disp.Stop()
+	}
+}
+
+// Close is Stop for a node that will not be used again: its database (if it came from NewMemDB)
+// is released once enough later nodes have been closed.  The idle goroutines of the chain cannot
+// be stopped; they keep the chain object alive, not the database.
+func (n *Node) Close() {
+	n.Stop()
+	if s, ok := n.DB.(*SoftDB); ok {
+		retire(s)
 	}
 }
 
